@@ -33,7 +33,7 @@ NewSess == [ech |-> -1, pch |-> -1,
             pNoi |-> 0, framesInSince |-> 0, pBeginSeen |-> FALSE,
             winBlocked |-> FALSE]
 NewLink == [ech |-> -1, pch |-> -1, eh |-> -1, ph |-> -1, name |-> "", eutSender |-> TRUE,
-            eAtt |-> FALSE, pAtt |-> FALSE, eDet |-> FALSE, pDet |-> FALSE, pClosed |-> FALSE, pDetErr |-> "", touched |-> FALSE, pDetFirst |-> FALSE, errTold |-> FALSE,
+            eAtt |-> FALSE, pAtt |-> FALSE, eDet |-> FALSE, eClosed |-> FALSE, pDet |-> FALSE, pClosed |-> FALSE, pDetErr |-> "", touched |-> FALSE, pDetFirst |-> FALSE, errTold |-> FALSE,
             snd |-> 2, rcv |-> 0, mmsP |-> -1,
             \* sender role (EUT sends)
             idc |-> 0, dcS |-> 0, fBase |-> 0, fN |-> 0, fWired |-> 0, fSends |-> 0, owed |-> 0, limit |-> -1, limRel |-> -1, drainOwed |-> FALSE, echoOwed |-> FALSE, inDel |-> FALSE, curDid |-> -1,
@@ -179,7 +179,7 @@ H_EDetach(s, r, l) ==
   LET k == LinkByE(s, r.ch, r.f.h) IN
   IF k = 0 \/ ~LinkLiveE(s.ls[k]) THEN R(s, Fail("C13_DetachAtMostOncePerAttach", l, ""))
   \* detQueued: deliveries the application had submitted are not (completely) on the wire when the detach is written
-  ELSE R([s EXCEPT !.ls[k].eDet = TRUE, !.ls[k].detQueued = (s.ls[k].eutSender /\ (s.ls[k].inDel \/ \E n \in DOMAIN s.ls[k].sendq : s.ls[k].sendq[n].did = -1))],
+  ELSE R([s EXCEPT !.ls[k].eDet = TRUE, !.ls[k].eClosed = r.f.closed, !.ls[k].detQueued = (s.ls[k].eutSender /\ (s.ls[k].inDel \/ \E n \in DOMAIN s.ls[k].sendq : s.ls[k].sendq[n].did = -1))],
          Chk("C13_DetachInKind", ~s.ls[k].pDet \/ ~s.ls[k].pClosed \/ r.f.closed, l, "")
          \* what the application had queued on the link and could be sent goes out before the detach
        + Chk("C13_Flush", ~(ConnUp(s) /\ Stuck(s, k) = "stuck"), l, "detach"))
@@ -657,6 +657,13 @@ H_Quiesce(s, r, l) ==
        + Chk("C13_EndReply_Q", \A i \in DOMAIN s.ss : ~(s.ss[i].pEnded /\ s.ss[i].pEndedBeforeE /\ s.ss[i].eBegun /\ ~s.ss[i].eEnded /\ Listening(s) /\ ~s.pclose), l, "")
        + Chk("C13_DetachReply_Q", \A k \in DOMAIN s.ls : ~(s.ls[k].pDet /\ s.ls[k].pDetFirst /\ s.ls[k].touched /\ LinkLiveE(s.ls[k]) /\ ConnUp(s)
                                                            /\ SessByE(s, s.ls[k].ech) > 0 /\ LiveE(s.ss[SessByE(s, s.ls[k].ech)]) /\ ~s.ss[SessByE(s, s.ls[k].ech)].pEnded), l, "")
+       \* closing is answered with closing: a peer that meets the endpoint's non-closing detach with a closing one is owed a closing detach, for
+       \* which the endpoint has to attach the link once more (2.6.6); nothing is demanded while that re-attach waits for the peer's answer
+       + Chk("C13_ClosingInKind_Q", \A k \in DOMAIN s.ls : LET y == s.ls[k] IN
+               ~(ConnUp(s) /\ y.eDet /\ ~y.eClosed /\ y.pDet /\ y.pClosed /\ ~y.pDetFirst /\ y.eAtt /\ y.pAtt
+                 /\ SessByE(s, y.ech) > 0 /\ LiveE(s.ss[SessByE(s, y.ech)]) /\ ~s.ss[SessByE(s, y.ech)].pEnded
+                 /\ ~\E j \in DOMAIN s.ls : j > k /\ s.ls[j].name = y.name /\ s.ls[j].eutSender = y.eutSender /\ s.ls[j].ech = y.ech
+                                              /\ ((s.ls[j].eDet /\ s.ls[j].eClosed) \/ (s.ls[j].eAtt /\ ~s.ls[j].pAtt /\ ~s.ls[j].eDet))), l, "")
        + Chk("C08_Drain_Q", \A k \in DOMAIN s.ls : ~(up /\ s.ls[k].eutSender /\ s.ls[k].drainOwed /\ LinkLiveE(s.ls[k]) /\ ~s.ls[k].pDet), l, "")
        + Chk("C02_Echo_Q", \A k \in DOMAIN s.ls : ~(ConnUp(s) /\ s.ls[k].eutSender /\ s.ls[k].oblEcho # {} /\ LinkLiveE(s.ls[k]) /\ ~s.ls[k].pDet
                                                      /\ SessByE(s, s.ls[k].ech) > 0 /\ LiveE(s.ss[SessByE(s, s.ls[k].ech)]) /\ ~s.ss[SessByE(s, s.ls[k].ech)].pEnded), l, "")
